@@ -3,10 +3,12 @@
    mi_heap_malloc_small would take a block from a page of the wrong size class (C03/C01).  Witness word size g_fw; its bin g_fwbin and the queue's
    bin g_fqbin are computed by the harness with the real _mi_bin (calls inside contract clauses are mis-instrumented by dfcc). */
 #ifdef VC_CBMC
-mi_heap_t* g_uheap; size_t g_fqbin, g_fw, g_fwbin; mi_page_t* g_fold;    /* logical: queue bin, witness word size and its bin, direct[g_fw] before */
+mi_heap_t* g_uheap; size_t g_fqbin, g_fqself, g_fw, g_fwbin; mi_page_t* g_fold;    /* logical: queue bin, witness word size and its bin, direct[g_fw] before */
 #define VC_HEAD(pq)   ((pq)->first != NULL ? (pq)->first : (mi_page_t*)&_mi_page_empty)
 #define VC_IDXQ(pq)   (((pq)->block_size + sizeof(uintptr_t) - 1) / sizeof(uintptr_t))
 static inline void mi_heap_queue_first_update(mi_heap_t* heap, const mi_page_queue_t* pq)
+/* the queue belongs to a size class that exists: its bin is the bin of its own block size (g_fqself, computed by the harness with the real _mi_bin) */
+__CPROVER_requires(pq->block_size > MI_SMALL_SIZE_MAX || g_fqself == g_fqbin)
 __CPROVER_requires(heap == g_uheap && g_fqbin >= 1 && g_fqbin <= MI_BIN_FULL && pq == &heap->pages[g_fqbin] && g_fw < MI_PAGES_DIRECT && heap->pages_free_direct[g_fw] == g_fold)
 /* the table is consistent per bin before the call: all word sizes of one bin hold the same page (what this function maintains) */
 __CPROVER_requires((g_fwbin == g_fqbin && pq->block_size <= MI_SMALL_SIZE_MAX) ==> heap->pages_free_direct[g_fw] == heap->pages_free_direct[VC_IDXQ(pq)])
